@@ -74,6 +74,7 @@ mutual
     | literal (cs : Vals)
     | bounded (base : Ty) (ge gt le lt : Option Int)   -- bounds in halves
     | validated (p : Nat)
+    | refined (base : Ty) (p : Nat)   -- validated(lambda x: check_type(x, base) and pred_p(x)): a validated type over a base
   inductive Tys
     | nil
     | cons (t : Ty) (ts : Tys)
@@ -230,6 +231,7 @@ mutual
     | .literal _, _ => false
     | .bounded _ _ _ _ _, _ => false   -- no class of the pool derives from a generated validated class
     | .validated _, _ => false
+    | .refined _ _, _ => false
   def subclassOfAny (E : Env) : Tys → ClassId → Bool
     | .nil, _ => false
     | .cons t ts, d => subclassOf E t d || subclassOfAny E ts d
@@ -277,6 +279,7 @@ mutual
         && boundOk v le (fun x g => decide (x ≤ g))     -- inclusive
         && boundOk v lt (fun x g => decide (x < g))     -- exclusive
     | .validated p, v => E.pred p v
+    | .refined b p, v => conforms E b v && E.pred p v               -- every generation's predicate
   /-- some alternative of a union -/
   def conformsAny (E : Env) : Tys → Val → Bool
     | .nil, _ => false
@@ -367,6 +370,7 @@ mutual
     -- ABCMeta.__subclasscheck__ of the generated class: false for every pool class
     | .bounded _ _ _ _ _, _ => .ok false
     | .validated _, _ => .ok false
+    | .refined _ _, _ => .ok false
   /-- `any(_check_subclass(value, t) for t in class_type.__args__)` (short-circuit). -/
   def checkSubclassAny (E : Env) : Tys → ClassId → Except Err Bool
     | .nil, _ => .ok false
@@ -427,6 +431,12 @@ mutual
       | .error e => .error e
       | .ok false => .ok false
       | .ok true => boundsCheck v ge gt le lt
+    -- a validated type whose validator is `check_type(obj, base) and pred(obj)` (validated over a base)
+    | .refined b p, v =>
+      match checkType E b v with
+      | .error e => .error e
+      | .ok false => .ok false
+      | .ok true => .ok (E.pred p v)
   /-- `any(check_type(value, t) for t in args)`: left to right, stops at the first True. -/
   def checkAny (E : Env) : Tys → Val → Except Err Bool
     | .nil, _ => .ok false
@@ -461,12 +471,14 @@ end
 
 mutual
   /-- The base of `bounded` is a numeric annotation (its values can be compared
-  with a number): `int`, `bool`, `float`, a bounded numeric, a union of numerics. -/
+  with a number): `int`, `bool`, `float`, a bounded numeric, a validated type over a
+  numeric base, a union of numerics. -/
   def Ty.numeric : Ty → Bool
     | .cls .int => true
     | .cls .bool => true
     | .float => true
     | .bounded b _ _ _ _ => b.numeric
+    | .refined b _ => b.numeric
     | .union ts => ts.numerics
     | _ => false
   def Tys.numerics : Tys → Bool
@@ -494,9 +506,37 @@ mutual
     | .type_ t => t.classArg
     | .literal cs => cs.all Val.scalar
     | .bounded b _ _ _ _ => b.wf && b.numeric
+    | .refined b _ => b.wf
   def Tys.wf : Tys → Bool
     | .nil => true
     | .cons t ts => t.wf && ts.wf
 end
+
+/-! ## Generations: `bounded` of `bounded`, validated over validated, bounded over validated
+
+A *generation* is one application of `bounded(·, ge, gt, le, lt)` or of a validated
+type over a base.  `Ty.chain base gens` applies the generations to `base`
+(`gens.head` is the outermost, i.e. the one applied last). -/
+
+inductive Gen
+  | bnd (ge gt le lt : Option Int)
+  | pred (p : Nat)
+  deriving Repr
+
+/-- one more generation on top of `t` -/
+def Gen.apply : Gen → Ty → Ty
+  | .bnd ge gt le lt, t => .bounded t ge gt le lt
+  | .pred p, t => .refined t p
+
+/-- the predicate this generation declares (inclusive/exclusive as declared) -/
+def Gen.holds (E : Env) (v : Val) : Gen → Bool
+  | .bnd ge gt le lt =>
+    boundOk v ge (fun x g => decide (g ≤ x)) && boundOk v gt (fun x g => decide (g < x))
+      && boundOk v le (fun x g => decide (x ≤ g)) && boundOk v lt (fun x g => decide (x < g))
+  | .pred p => E.pred p v
+
+def Ty.chain (base : Ty) : List Gen → Ty
+  | [] => base
+  | g :: gs => g.apply (Ty.chain base gs)
 
 end SpecVerif.C15
